@@ -82,6 +82,25 @@ let lop_of_s (s : string) : lop =
 
 let sort_pairs l = List.sort compare l
 
+(* what the Log interface shows: size, placeholder index, last term, entries after the placeholder *)
+let s_of_logview (es : pb_entry list) : string =
+  match es with
+  | [] -> "EMPTY"
+  | p :: rest ->
+      let last = List.nth es (List.length es - 1) in
+      Printf.sprintf "%d %s %s %s" (List.length rest) (string_of_n p.pe_index) (string_of_n last.pe_term)
+        (s_of_entries ';' rest)
+
+let sop_of_s (s : string) : sop =
+  match s.[0] with
+  | 'N' -> (match String.split_on_char ',' (String.sub s 2 (String.length s - 2)) with
+            | [i; t; c] -> SNew { sn_index = n_of_string i; sn_term = n_of_string t; sn_conf = bytes_of_hex c; sn_data = [] }
+            | _ -> failwith "bad snapshot op")
+  | 'W' -> SWrite (bytes_of_hex (String.sub s 2 (String.length s - 2)))
+  | 'C' -> SClose
+  | 'X' -> SDiscard
+  | _ -> failwith ("bad snapshot op " ^ s)
+
 (* ---------- dispatch ---------- *)
 let run (kind : string) (a : string array) : string =
   let n i = n_of_string a.(i) and h i = bytes_of_hex a.(i) and b i = bool_of_s a.(i) in
@@ -144,7 +163,25 @@ let run (kind : string) (a : string array) : string =
   | "LOGPROG" ->
       let ops = if a.(0) = "-" then [] else List.map lop_of_s (String.split_on_char '/' a.(0)) in
       let (d, es) = run_log ops in
-      hex_of_bytes d.d_file ^ " " ^ s_of_entries ';' es
+      hex_of_bytes d.d_file ^ " " ^ s_of_logview es
+  | "RECOVER" ->
+      (match replay (h 0) with
+       | RPanic -> "PANIC"
+       | RErr -> "ERR"
+       | ROk _ ->
+           (match recover { d_file = h 0; d_tmp = None } with
+            | Some (_, es) -> "OK " ^ s_of_logview es
+            | None -> "ERR"))
+  | "RECOVER_APPEND" ->
+      (match recover { d_file = h 0; d_tmp = None } with
+       | Some st -> let ((d, _), _) = lstep st (LAppend [entry_of_s a.(1)]) in hex_of_bytes d.d_file
+       | None -> "ERR")
+  | "SNAPLATEST" ->
+      let ops = if a.(0) = "-" then [] else List.map sop_of_s (String.split_on_char '/' a.(0)) in
+      let d = List.fold_left sstep { sd_closed = []; sd_tmp = [] } ops in
+      (match latest (recover_snap d) with
+       | None -> "NONE"
+       | Some s -> String.concat "," [string_of_n s.sn_index; string_of_n s.sn_term; hex_of_bytes s.sn_conf; hex_of_bytes s.sn_data])
   | "READSTATE" ->
       opt (fun s -> string_of_n s.ps_term ^ "," ^ hex_of_bytes s.ps_vote) (read_state (h 0))
   | "STATEREC" -> hex_of_bytes (state_rec { ps_term = n 0; ps_vote = h 1 })
